@@ -612,7 +612,7 @@ module Z =
 (** val warc_kRead : n **)
 
 let warc_kRead =
-  Npos (XO (XO (XO (XO (XO (XO (XO (XO (XO (XO (XO (XO XH))))))))))))
+  Npos (XO (XO (XO (XO (XO (XO (XO (XO (XO (XO XH))))))))))
 
 (** val warc_version : z list **)
 
